@@ -30,3 +30,13 @@ def cls_pairs(maxlen=60):
                         seen.add((name, v))
                         pairs.append((name, v))
     return pairs
+
+
+def corpus():
+    """programs of vh/corpus.json (built by tools/mkcorpus.py from the repository's tests)"""
+    import json
+    p = os.path.join(os.path.dirname(os.path.dirname(os.path.abspath(__file__))), "vh", "corpus.json")
+    try:
+        return json.load(open(p))
+    except FileNotFoundError:
+        return []
